@@ -22,6 +22,8 @@ import (
 // OnKilled{X}, X and all its descendants are already unregistered and X's name is free again.
 //
 //	ko <variant> <seed>     variant: bits 1 = grandchild, 2 = watcher, 4 = poison, 8 = two subscribers
+type koEv struct{}
+
 type koEngine struct{}
 
 func init() { Register("killorder", func() Engine { return &koEngine{} }) }
@@ -92,11 +94,24 @@ func koRun(variant int, seed uint64) (string, string) {
 			}
 		}
 	}
+	// every worker subscribes to koEv at launch; gotEv counts the deliveries per context (C19: the re-created
+	// namesake keeps its subscription whatever the clean-up of the dead instance does later)
+	gotEv := map[*actor.Context]int{}
 	var worker func() vivid.Actor
 	worker = func() vivid.Actor {
 		return vivid.ActorFN(func(c vivid.ActorContext) {
-			if _, ok := c.Message().(*vivid.OnLaunch); ok && variant&1 != 0 && !strings.HasSuffix(c.Ref().GetPath(), "/g") {
-				c.ActorOf(vivid.ActorFN(func(vivid.ActorContext) {}), vivid.WithActorName("g"))
+			switch c.Message().(type) {
+			case *vivid.OnLaunch:
+				if !strings.HasSuffix(c.Ref().GetPath(), "/g") {
+					c.EventStream().Subscribe(c, koEv{})
+					if variant&1 != 0 {
+						c.ActorOf(vivid.ActorFN(func(vivid.ActorContext) {}), vivid.WithActorName("g"))
+					}
+				}
+			case koEv:
+				if x := sys.VerifLookup(c.Ref().GetPath()); x != nil {
+					gotEv[x]++
+				}
 			}
 		})
 	}
@@ -168,6 +183,22 @@ func koRun(variant int, seed uint64) (string, string) {
 			}
 			if !act(func() { sys.Kill(ref, variant&4 != 0, "probe") }) {
 				return "-", "HARNESS: kill did not quiesce: " + s.Stuck
+			}
+		}
+	}
+	// C19: whoever is registered under /p/w now subscribed at its launch: a publication reaches it, once
+	if viol == "" {
+		if !act(func() { sys.EventStream().Publish(sys, koEv{}) }) {
+			return "-", "HARNESS: publish did not quiesce: " + s.Stuck
+		}
+		if x := sys.VerifLookup("/p/w"); x != nil && x.VerifState().State == 0 && gotEv[x] != 1 {
+			viol = fmt.Sprintf("SUBSCRIPTION-LOST: /p/w (re-created %d time(s)) subscribed at its launch but received the event published afterwards %d time(s) — the subscription of the live actor was removed by the clean-up of its dead namesake", respawned, gotEv[x])
+		}
+		if bySub, _ := sys.VerifSubscriptions(); viol == "" {
+			for _, e := range bySub {
+				if strings.Contains(e, "/p/w") && sys.VerifLookup("/p/w") == nil {
+					viol = "SUBSCRIPTION-LEFT: /p/w is terminated and not re-created, yet the event stream still holds " + e
+				}
 			}
 		}
 	}
